@@ -43,6 +43,42 @@ var specs = map[string]spec{
 	},
 }
 
+// constScale writes an overlay in which one constant definition of one file of
+// the repository is replaced (documented scaling of a size constant so that a
+// bounded history crosses its boundaries). It fails loudly unless the
+// definition occurs exactly once.
+func constScale(out, rel, from, to string) {
+	repo := os.Getenv("VERIF_REPO")
+	if repo == "" {
+		repo = "/repo"
+	}
+	outdir, err := filepath.Abs(out)
+	if err != nil {
+		fatal("%v", err)
+	}
+	_ = os.RemoveAll(outdir)
+	if err := os.MkdirAll(outdir, 0o755); err != nil {
+		fatal("%v", err)
+	}
+	src := filepath.Join(repo, rel)
+	b, err := os.ReadFile(src)
+	if err != nil {
+		fatal("%v", err)
+	}
+	if n := strings.Count(string(b), from); n != 1 {
+		fatal("%s: %q occurs %d times, expected exactly once", src, from, n)
+	}
+	dst := filepath.Join(outdir, filepath.Base(rel))
+	if err := os.WriteFile(dst, []byte(strings.Replace(string(b), from, to, 1)), 0o644); err != nil {
+		fatal("%v", err)
+	}
+	ov, _ := json.MarshalIndent(map[string]any{"Replace": map[string]string{src: dst}}, "", " ")
+	if err := os.WriteFile(filepath.Join(outdir, "overlay.json"), ov, 0o644); err != nil {
+		fatal("%v", err)
+	}
+	fmt.Printf("ovgen: %s: %s -> %s\n", rel, from, to)
+}
+
 func fatal(format string, a ...any) {
 	fmt.Fprintf(os.Stderr, "ovgen: FATAL: "+format+"\n", a...)
 	os.Exit(3)
@@ -51,6 +87,10 @@ func fatal(format string, a ...any) {
 func main() {
 	if len(os.Args) != 3 {
 		fatal("usage: ovgen <spec> <outdir>")
+	}
+	if os.Args[1] == "hdrbatch4" {
+		constScale(os.Args[2], "pkg/core/headerhashes.go", "headerBatchCount = 2000", "headerBatchCount = 4")
+		return
 	}
 	sp, ok := specs[os.Args[1]]
 	if !ok {
